@@ -32,9 +32,25 @@ func init() { components["sync"] = runSync }
 
 func runSync(r *prng.R, s *out.Sink, tier string) {
 	syncRender(r, s)
-	syncStep(r.Fork(), s, tier)
-	syncLockstep(r.Fork(), s, tier)
-	syncNet(r.Fork(), s, tier)
+	for _, part := range []func(*prng.R, *out.Sink, string){syncStep, syncLockstep, syncNet} {
+		before := 0
+		for _, v := range s.Monitor {
+			if v.Property == "C07" {
+				before++
+			}
+		}
+		part(r.Fork(), s, tier)
+		after := 0
+		for _, v := range s.Monitor {
+			if v.Property == "C07" && strings.Contains(v.What, "does not return") {
+				after++
+			}
+		}
+		if after > 0 {
+			return // a handler is blocked: the member objects of the later parts would only hang on it
+		}
+		_ = before
+	}
 }
 
 // ---------------------------------------------------------------------------------------------------
@@ -246,7 +262,18 @@ func syncStep(r *prng.R, s *out.Sink, tier string) {
 					msg = discovery.VerifEncodeTagAndMembershipList(kind, string(tg), view)
 				}
 				sent = nil
-				res := safely(func() string { m.HandleMessage(from, msg); return "" })
+				resCh := make(chan string, 1)
+				go func() { resCh <- safely(func() string { m.HandleMessage(from, msg); return "" }) }()
+				res := ""
+				select {
+				case res = <-resCh:
+				case <-time.After(5 * time.Second):
+					// a handler that blocks: the member's tables took something they should have refused (its confirmation
+					// channel has room for one confirmation per other member)
+					s.Violate("C07", fmt.Sprintf("Member.HandleMessage does not return (blocked for 5 s) on a %s %s message attributed to member %d: the message was taken although the handler of a correct member never has more to do than its tables have room for", what, kindNames[kind], from), fmt.Sprintf("ds handle %d %d %s", h, from, out.Hex(msg)))
+					s.Violate("C10", "disc.HandleMessage does not return (blocked for 5 s)", fmt.Sprintf("from %d: %s", from, out.Hex(msg)))
+					return
+				}
 				ans := "-"
 				if res == "panic" {
 					ans = "panic"
